@@ -26,6 +26,7 @@ func c20(c *Ctx) {
 	sTransferFlag(c, "R2/S-TRANSFER")
 	c20R6(c, "R6")
 	c11R4(c, "R7/C11.R4")
+	c10R3(c, "R8/C10.R3")
 }
 
 func c20R1345(c *Ctx) {
